@@ -29,6 +29,7 @@ import (
 	"k8s.io/client-go/kubernetes/scheme"
 
 	"github.com/kubewharf/kubegateway/pkg/clusters"
+	flowcontrols "github.com/kubewharf/kubegateway/pkg/flowcontrols/flowcontrol"
 	"github.com/kubewharf/kubegateway/pkg/gateway/endpoints/request"
 	"github.com/kubewharf/kubegateway/pkg/gateway/endpoints/response"
 	"github.com/kubewharf/kubegateway/pkg/util/tracing"
@@ -88,7 +89,9 @@ func (d *dispatcher) ServeHTTP(w http.ResponseWriter, req *http.Request) {
 
 	_ = request.SetProxyInfo(req.Context(), endpointPicker.FlowControlName(), user)
 
-	flowcontrol := endpointPicker.FlowControl()
+	// pin the limiter in force now: Release must go to the limiter that admitted
+	// this request even if the schema is reconfigured while it is in flight
+	flowcontrol := flowcontrols.Pin(endpointPicker.FlowControl())
 	if !flowcontrol.TryAcquire() {
 		//TODO: exempt master request and long running request
 		// add metrics
